@@ -10,7 +10,7 @@ RULE = (
     "synthetic curve set with genuinely composition- and temperature-dependent permeances: 1 curve (modelling temperature "
     "equal to or different from the curve's) or 2-3 curves, mass or molar abscissae, initial feed as mass or mole "
     "fraction, with / without initial permeances (3 units), all permeate modes, isothermal / self-cooling / programme, "
-    "orders 0..2; 15 % of the cases use a membrane, curve set and mixture shipped with the repository (loaded from a copy). "
+    "orders 0..2 or (15 % of the cases) the default search for some of them; 15 % of the cases use a membrane, curve set and mixture shipped with the repository (loaded from a copy). "
     "The find_best_fit and calculate_activation_energy calls made INSIDE the model are recorded. "
     "non-trivial = the run returned with >= 2 steps; distinct = distinct inputs"
 )
@@ -66,7 +66,7 @@ def one_case(rep, spec, index):
     rng = gen.case_rng(PROP, spec["seed"], spec["shard"], index)
     kind = rng.choice(["non_ideal_isothermal_process", "non_ideal_non_isothermal_process", "non_ideal_diffusion_curve"])
     sc = proc.Scenario(rng, kinds=[kind if kind != "non_ideal_diffusion_curve" else "non_ideal_isothermal_process"],
-                       nonideal_orders=2 if rng.random() < 0.3 else 1, max_steps=10)
+                       nonideal_orders=2 if rng.random() < 0.3 else 1, max_steps=10, default_orders=0.15)
     bundled = None
     if rng.random() < 0.15 and spec.get("bundled_dir"):
         # real data: a membrane shipped with the repository (loaded from a copy), its own curve set and mixture
@@ -86,7 +86,7 @@ def one_case(rep, spec, index):
             if mem.ideal_experiments is None or rng.random() < 0.5:
                 sc.t0 = cs.diffusion_curves[0].feed_temperature  # no activation energies available: model at the curve temperature
             sc.x0 = gen.gen_composition(rng, sc.mix, edge=0.05)
-            sc.orders = {k: min(v, 1) for k, v in sc.orders.items()}
+            sc.orders = {k: (None if v is None else min(v, 1)) for k, v in sc.orders.items()}
             sc.conditions.initial_feed_temperature = sc.t0
             sc.conditions.initial_feed_composition = sc.x0
             sc.mode, sc.tp, sc.pp = "V", None, None
